@@ -1,5 +1,6 @@
 //! Kani entry points. Scenario bodies live in /verif/scenarios and are shared with the native
 //! replay crate (/verif/replay); here every value source is `kani::any()`.
+#![recursion_limit = "1024"]
 #![allow(unused, non_snake_case, static_mut_refs)]
 
 #[cfg(kani)]
@@ -127,6 +128,55 @@ macro_rules! registry {
         #[kani::stub(parking_lot::raw_mutex::RawMutex::unlock_slow, crate::stubs::pl_unlock_slow)]
         #[kani::stub(redis_sim::replication::hash_ring::HashRing::hash_virtual_node, crate::stubs::ring_vnode)]
         #[kani::stub(redis_sim::replication::hash_ring::HashRing::hash_key, crate::stubs::ring_key)]
+        pub fn $name() { $body }
+    };
+    (@one $name:ident, $unwind:literal, clock, $body:expr) => {
+        #[kani::proof]
+        #[kani::unwind($unwind)]
+        #[kani::stub(alloc::fmt::format, crate::stubs::stub_format)]
+        #[kani::stub(core::ptr::align_offset, crate::stubs::no_align_offset)]
+        #[kani::stub(str::to_uppercase, crate::stubs::ascii_upper)]
+        #[kani::stub(core::arch::x86_64::__cpuid_count, crate::stubs::fake_cpuid)]
+        #[kani::stub(tracing_core::callsite::DefaultCallsite::interest, crate::stubs::stub_interest)]
+        #[kani::stub(tracing::__macro_support::__is_enabled, crate::stubs::stub_is_enabled)]
+        #[kani::stub(tracing_core::event::Event::dispatch, crate::stubs::stub_dispatch)]
+        #[kani::stub(parking_lot::raw_mutex::RawMutex::lock_slow, crate::stubs::pl_lock_slow)]
+        #[kani::stub(parking_lot::raw_mutex::RawMutex::unlock_slow, crate::stubs::pl_unlock_slow)]
+        #[kani::stub(std::time::Instant::now, crate::stubs::instant_zero)]
+        #[kani::stub(std::time::SystemTime::now, crate::stubs::systime_zero)]
+        pub fn $name() { $body }
+    };
+    (@one $name:ident, $unwind:literal, persist, $body:expr) => {
+        #[kani::proof]
+        #[kani::unwind($unwind)]
+        #[kani::stub(alloc::fmt::format, crate::stubs::stub_format)]
+        #[kani::stub(core::ptr::align_offset, crate::stubs::no_align_offset)]
+        #[kani::stub(str::to_uppercase, crate::stubs::ascii_upper)]
+        #[kani::stub(core::arch::x86_64::__cpuid_count, crate::stubs::fake_cpuid)]
+        #[kani::stub(tracing_core::callsite::DefaultCallsite::interest, crate::stubs::stub_interest)]
+        #[kani::stub(tracing::__macro_support::__is_enabled, crate::stubs::stub_is_enabled)]
+        #[kani::stub(tracing_core::event::Event::dispatch, crate::stubs::stub_dispatch)]
+        #[kani::stub(parking_lot::raw_mutex::RawMutex::lock_slow, crate::stubs::pl_lock_slow)]
+        #[kani::stub(parking_lot::raw_mutex::RawMutex::unlock_slow, crate::stubs::pl_unlock_slow)]
+        #[kani::stub(std::time::Instant::now, crate::stubs::instant_zero)]
+        #[kani::stub(std::time::SystemTime::now, crate::stubs::systime_zero)]
+        #[kani::stub(bincode::serialize, crate::stubs::stub_bincode_serialize)]
+        #[kani::stub(serde_json::to_vec_pretty, crate::stubs::stub_json_pretty)]
+        pub fn $name() { $body }
+    };
+    (@one $name:ident, $unwind:literal, small, $body:expr) => {
+        #[kani::proof]
+        #[kani::unwind($unwind)]
+        #[kani::stub(alloc::fmt::format, crate::stubs::stub_format)]
+        #[kani::stub(core::ptr::align_offset, crate::stubs::no_align_offset)]
+        #[kani::stub(str::to_uppercase, crate::stubs::ascii_upper)]
+        #[kani::stub(core::arch::x86_64::__cpuid_count, crate::stubs::fake_cpuid)]
+        #[kani::stub(tracing_core::callsite::DefaultCallsite::interest, crate::stubs::stub_interest)]
+        #[kani::stub(tracing::__macro_support::__is_enabled, crate::stubs::stub_is_enabled)]
+        #[kani::stub(tracing_core::event::Event::dispatch, crate::stubs::stub_dispatch)]
+        #[kani::stub(parking_lot::raw_mutex::RawMutex::lock_slow, crate::stubs::pl_lock_slow)]
+        #[kani::stub(parking_lot::raw_mutex::RawMutex::unlock_slow, crate::stubs::pl_unlock_slow)]
+        #[kani::stub(redis_sim::redis::CommandExecutor::execute, redis_sim::redis::CommandExecutor::verif_execute_small)]
         pub fn $name() { $body }
     };
     (@one $name:ident, $unwind:literal, alloc, $body:expr) => {
